@@ -589,7 +589,7 @@ Lemma propagation_unfold pv c seeds order oracle weighted n_iter fuel res :
   propagation pv c seeds order oracle weighted n_iter fuel = POk res ->
   let n := length seeds in
   let '(index_seed, index_remain0, labels_seed) := instantiate_vars (pv_ctest pv) seeds in
-  let index := order_index order oracle index_remain0 in
+  let index := order_index (pv_order pv) order oracle index_remain0 in
   pr_index res = index /\
   pr_probs res = prop_probs (csr_rows c n) (pr_labels res) /\
   prop_loop (pv_kernel pv) c (pdata pv c n weighted) index n_iter fuel 0 (repeat 0%Z (length index))
@@ -616,7 +616,7 @@ Proof.
               forall x, In x labels -> x = (-1)%Z \/ (In x seeds /\ (clustering_mode (pv_ctest pv) seeds = false -> (0 <= x)%Z))).
   assert (Hstep : forall labels labels', P labels ->
       vote_update (pv_kernel pv) (c_indptr c) (c_indices c) (pdata pv c (length seeds) weighted) labels
-                  (order_index order oracle ir) = VOk labels' -> P labels').
+                  (order_index (pv_order pv) order oracle ir) = VOk labels' -> P labels').
   { unfold P. intros labels labels' [HL HP] Hv.
     destruct (vote_update_labels_from_input _ _ _ _ _ _ _ Hv) as [L [_ I]].
     split; [lia|]. intros x Hx. apply HP. apply I. exact Hx. }
@@ -631,16 +631,16 @@ Proof.
 Qed.
 
 (** admissible update orders for the theorems about "every non-seed node": index order, or any shuffle *)
-Definition order_ok (order : node_order) (oracle : list nat) (seeds : list Z) : Prop :=
+Definition order_ok (oi : order_impl) (order : node_order) (oracle : list nat) (seeds : list Z) : Prop :=
   match order with
   | ONone => True
   | ORandom => Permutation (filter (fun i => (nthz seeds i <? 0)%Z) (seq 0 (length seeds))) oracle
-  | _ => False
+  | _ => oi = OI_filter /\ Permutation oracle (seq 0 (length seeds))
   end.
 
 Lemma pr_index_spec pv c seeds order oracle weighted n_iter fuel res :
   propagation pv c seeds order oracle weighted n_iter fuel = POk res ->
-  clustering_mode (pv_ctest pv) seeds = false -> order_ok order oracle seeds ->
+  clustering_mode (pv_ctest pv) seeds = false -> order_ok (pv_order pv) order oracle seeds ->
   NoDup (pr_index res) /\
   forall i, In i (pr_index res) <-> i < length seeds /\ (nthz seeds i < 0)%Z.
 Proof.
@@ -650,16 +650,25 @@ Proof.
   destruct U as [U _]. destruct S as [_ [_ [Sir [_ [_ Smode]]]]]. destruct (Smode Hm) as [_ Eir].
   assert (Hspec : forall i, In i ir <-> i < length seeds /\ (nthz seeds i < 0)%Z).
   { intros i. rewrite Eir, filter_In, in_seq, Z.ltb_lt. intuition lia. }
-  rewrite U. destruct order; simpl in *; try contradiction.
+  assert (Hfilt : pv_order pv = OI_filter /\ Permutation oracle (seq 0 (length seeds)) ->
+                  NoDup (filter (fun i => memn i ir) oracle) /\
+                  forall i, In i (filter (fun i => memn i ir) oracle) <-> i < length seeds /\ (nthz seeds i < 0)%Z).
+  { intros [_ Hp]. split.
+    - apply NoDup_filter. apply Permutation_sym in Hp. eapply Permutation_NoDup; [exact Hp|apply seq_NoDup].
+    - intros i. rewrite filter_In, memn_In, Hspec. split; [tauto|]. intros Hi. split; [|exact Hi].
+      apply Permutation_sym in Hp. apply (Permutation_in _ Hp). apply in_seq. lia. }
+  rewrite U. destruct order; simpl in *.
   - rewrite <- Eir in Ho. split; [eapply Permutation_NoDup; eassumption|].
     intros i. rewrite <- Hspec. split; intros Hi; [apply Permutation_sym in Ho|]; eapply Permutation_in; eassumption.
+  - destruct Ho as [Ho1 Ho2]. rewrite Ho1. apply Hfilt. split; assumption.
+  - destruct Ho as [Ho1 Ho2]. rewrite Ho1. apply Hfilt. split; assumption.
   - split; assumption.
 Qed.
 
 (** seeds keep their labels (outside clustering mode, for the index and random orders) *)
 Theorem propagation_seeds_fixed_model pv c seeds order oracle weighted n_iter fuel res :
   propagation pv c seeds order oracle weighted n_iter fuel = POk res ->
-  clustering_mode (pv_ctest pv) seeds = false -> order_ok order oracle seeds ->
+  clustering_mode (pv_ctest pv) seeds = false -> order_ok (pv_order pv) order oracle seeds ->
   forall i, i < length seeds -> (0 <= nthz seeds i)%Z -> nthz (pr_labels res) i = nthz seeds i.
 Proof.
   intros H Hm Ho i Hi Hs.
@@ -707,7 +716,7 @@ Qed.
 
 (** the same for weighted votes, for a kernel that reads the weight of the edge and clears votes_neigh *)
 Theorem propagation_fixed_point_weighted_model pv c seeds order oracle n_iter fuel res :
-  pv_kernel pv = {| wpos := true; clr := true |} ->
+  wpos (pv_kernel pv) = true -> clr (pv_kernel pv) = true ->
   Forall (fun w => 0 <= w)%Q (c_data c) ->
   propagation pv c seeds order oracle true n_iter fuel = POk res ->
   pr_fixed res = true -> 0 < pr_sweeps res -> NoDup (pr_index res) ->
@@ -715,37 +724,45 @@ Theorem propagation_fixed_point_weighted_model pv c seeds order oracle n_iter fu
     has_labelled_neighbour (nbrs_weighted (c_indptr c) (c_indices c) (c_data c) i) (pr_labels res) ->
     local_max (nbrs_weighted (c_indptr c) (c_indices c) (c_data c) i) (pr_labels res) i.
 Proof.
-  intros Hk Hnn H Hf Ht Hnd i Hi Hnb. pose proof (propagation_unfold _ _ _ _ _ _ _ _ _ H) as U. cbv zeta in U.
+  intros Hkw Hkc Hnn H Hf Ht Hnd i Hi Hnb. pose proof (propagation_unfold _ _ _ _ _ _ _ _ _ H) as U. cbv zeta in U.
   destruct (instantiate_vars (pv_ctest pv) seeds) as [[is ir] ls]. destruct U as [Ui [_ U]].
   rewrite <- Ui in U. rewrite Hf in U. apply prop_loop_fixed in U.
-  destruct U as [[E _]|[_ [l0 [Hv Hm]]]]; [lia|]. unfold pdata in Hv. rewrite Hk in Hv.
+  destruct U as [[E _]|[_ [l0 [Hv Hm]]]]; [lia|]. unfold pdata in Hv.
   assert (Hsame : forall j, In j (pr_index res) -> nthz (pr_labels res) j = nthz l0 j).
   { intros j Hj. apply In_nth with (d := 0) in Hj. destruct Hj as [k [Hk' <-]].
     apply (f_equal (fun l => nth k l 0%Z)) in Hm.
     rewrite !(nth_map_lt _ _ _ 0 0%Z) in Hm by exact Hk'. symmetry. exact Hm. }
-  destruct (vote_fixed_point_weighted_repaired _ _ _ _ _ _ Hnn Hv Hnd Hsame) as [_ Hmax].
+  destruct (vote_fixed_point_weighted _ _ _ _ _ _ _ Hkw Hkc Hnn Hv Hnd Hsame) as [_ Hmax].
   apply Hmax; assumption.
 Qed.
 
-(** ** Refutations for the current source (kernel reads data[node], never clears votes_neigh; clustering test
-    len(set(labels)) == n; ones of length n) *)
-Definition pv_current : pvariant :=
-  {| pv_kernel := {| wpos := false; clr := false |}; pv_ctest := CT_distinct; pv_ones := Ones_n |}.
+(** ** Refutations.
+    [pv_legacy]: the source before 32660cf6 (kernel reads data[node], never clears votes_neigh, votes of length n;
+    ones of length n). [pv_32660cf6]: kernel repaired; the clustering test is still len(set(labels)) == n and
+    'increasing' / 'decreasing' still index the argsort by position. *)
+Definition pv_legacy : pvariant :=
+  {| pv_kernel := legacy_kernel; pv_ctest := CT_distinct; pv_ones := Ones_n; pv_order := OI_position |}.
+Definition pv_32660cf6 : pvariant :=
+  {| pv_kernel := repaired_kernel; pv_ctest := CT_distinct; pv_ones := Ones_nnz; pv_order := OI_position |}.
 
-(** D5: weighted propagation stops at a labelling where node 3 holds label 0 although label 1 has weight 2 > 1 *)
+(** D5 (legacy kernel): weighted propagation stops at a labelling where node 3 holds label 0 although label 1
+    has weight 2 > 1; the repaired kernel gives label 1 on the same input *)
 Definition wit_csr : csr := {| c_indptr := wit_indptr; c_indices := wit_indices; c_data := wit_data |}.
-Theorem propagation_weighted_refuted :
-  exists res, propagation pv_current wit_csr [-1; 0; 1; -1]%Z ONone [] true None 10 = POk res /\
+Theorem propagation_weighted_refuted_legacy :
+  (exists res', propagation pv_32660cf6 wit_csr [-1; 0; 1; -1]%Z ONone [] true None 10 = POk res' /\
+                pr_labels res' = [-1; 0; 1; 1]%Z) /\
+  exists res, propagation pv_legacy wit_csr [-1; 0; 1; -1]%Z ONone [] true None 10 = POk res /\
     pr_fixed res = true /\ 0 < pr_sweeps res /\ clustering_mode CT_distinct [-1; 0; 1; -1]%Z = false /\
     Forall (fun w => 0 < w)%Q (c_data wit_csr) /\
     In 3 (pr_index res) /\
     has_labelled_neighbour (nbrs_weighted wit_indptr wit_indices wit_data 3) (pr_labels res) /\
     ~ local_max (nbrs_weighted wit_indptr wit_indices wit_data 3) (pr_labels res) 3.
 Proof.
+  split; [eexists; split; [vm_compute; reflexivity|reflexivity]|].
   eexists. split; [vm_compute; reflexivity|]. cbn [pr_fixed pr_sweeps pr_index pr_labels].
   split; [reflexivity|]. split; [lia|]. split; [reflexivity|]. split; [repeat constructor|].
   split; [simpl; auto|].
-  destruct vote_weighted_refuted_current as [_ [_ [_ [_ [Hn Hl]]]]]. split; assumption.
+  destruct vote_weighted_refuted_legacy as [_ [_ [_ [_ [Hn Hl]]]]]. split; assumption.
 Qed.
 
 (** D21: [[0,4,0],[4,0,0],[0,0,0]], seeds {0:0, 1:1}: three distinct values in a vector of length 3 are taken
@@ -753,7 +770,7 @@ Qed.
 Theorem propagation_seeds_fixed_refuted :
   let c := {| c_indptr := [0; 1; 2; 2]; c_indices := [1; 0]; c_data := [4; 4]%Q |} in
   let seeds := [0; 1; -1]%Z in
-  exists res, propagation pv_current c seeds ONone [] true None 10 = POk res /\
+  exists res, propagation pv_32660cf6 c seeds ONone [] true None 10 = POk res /\
     pr_labels res = [1; 1; -1]%Z /\ nthz seeds 0 = 0%Z /\ nthz (pr_labels res) 0 <> nthz seeds 0 /\
     clustering_mode CT_distinct seeds = true.
 Proof.
@@ -773,7 +790,7 @@ Theorem propagation_order_refuted :
   let oracle := [3; 0; 2; 1] in
   Permutation oracle (seq 0 4) /\ Sorted Z.le (map (nthz inw) oracle) /\
   clustering_mode CT_distinct seeds = false /\
-  exists res, propagation pv_current c seeds OIncreasing oracle true (Some 5) 5 = POk res /\
+  exists res, propagation pv_32660cf6 c seeds OIncreasing oracle true (Some 5) 5 = POk res /\
     pr_index res = [3; 2] /\ pr_labels res = [-1; 0; 0; 0]%Z /\
     nthz seeds 3 = 1%Z /\ nthz (pr_labels res) 3 <> nthz seeds 3.
 Proof.
@@ -1248,4 +1265,213 @@ Proof.
   rewrite Hnth. destruct (nthz dist v <? 0)%Z eqn:E.
   - split; [|congruence]. split; [intros _; apply Hneg; reflexivity|reflexivity].
   - split; [|intros _; split; assumption]. split; [lia|]. intros Hno. apply Hneg in Hno. congruence.
+Qed.
+
+Lemma in_map2 {A B C} (f : A -> B -> C) l1 : forall l2 x,
+  In x (map2 f l1 l2) -> exists a b, In a l1 /\ In b l2 /\ x = f a b.
+Proof.
+  induction l1 as [|a t IH]; intros [|b t2] x H; simpl in H; try contradiction.
+  destruct H as [<-|H].
+  - exists a, b. simpl. auto.
+  - destruct (IH _ _ H) as [a' [b' [Ha [Hb E]]]]. exists a', b'. simpl. auto.
+Qed.
+
+(** probability rows of DiffusionClassifier; contract of the exp oracle: non-negative values *)
+Theorem dc_probs_rows adj labels n_iter centering scale expf lab probs :
+  (forall r, In r adj -> Forall (fun p : nat * Q => 0 <= snd p)%Q r) ->
+  (forall x, 0 <= expf x)%Q ->
+  dc_fit adj labels n_iter centering scale expf = Some (lab, probs) ->
+  Forall prob_row probs.
+Proof.
+  intros Hadj Hexp H.
+  destruct (dc_fit_unfold _ _ _ _ _ _ _ _ H) as [_ [dist [_ [_ Hp]]]]. cbv zeta in Hp.
+  pose proof (dc_iter_inv adj labels n_iter Hadj) as Inv. cbv zeta in Inv. destruct Inv as [_ I2 _ _].
+  set (lu := uniq_labels labels) in *. set (k := length lu) in *.
+  set (T := Nat.iter n_iter _ _) in *.
+  subst probs. rewrite Forall_forall. intros x Hx. apply in_map_iff in Hx. destruct Hx as [r [<- Hr]].
+  apply normalize_row_prob. apply in_map2 in Hr. destruct Hr as [d [r0 [_ [Hr0 ->]]]].
+  unfold nonneg_row. destruct (d <? 0)%Z.
+  - rewrite Forall_forall. intros y Hy. apply repeat_spec in Hy. subst y. lra.
+  - destruct centering.
+    + apply in_map_iff in Hr0. destruct Hr0 as [r1 [<- _]]. rewrite Forall_forall. intros y Hy.
+      apply in_map_iff in Hy. destruct Hy as [z [<- _]]. apply Hexp.
+    + destruct (in_mat_row _ _ Hr0) as [i [_ <-]]. rewrite Forall_forall. intros y Hy.
+      apply (In_nth _ _ 0%Q) in Hy. destruct Hy as [c [_ <-]]. apply (I2 i c).
+Qed.
+
+(** * NNClassifier *)
+
+Lemma count_if_map {A B} (P : B -> bool) (h : A -> B) (l : list A) :
+  count_if P (map h l) = count_if (fun x => P (h x)) l.
+Proof. induction l as [|a t IH]; [reflexivity|]. simpl map. rewrite !count_if_cons, IH. reflexivity. Qed.
+
+Lemma count_if_single (s : nat) (g : nat -> bool) (l : list nat) :
+  NoDup l -> In s l -> count_if (fun t => (t =? s) && g t) l = if g s then 1 else 0.
+Proof.
+  induction 1 as [|a t Hnotin Hnd IH]; intros Hin; [contradiction|].
+  rewrite count_if_cons. destruct Hin as [->|Hin].
+  - rewrite Nat.eqb_refl. simpl andb. rewrite count_if_none.
+    + destruct (g s); reflexivity.
+    + intros x Hx. destruct (x =? s) eqn:E; [|reflexivity]. apply Nat.eqb_eq in E. subst. contradiction.
+  - destruct (a =? s) eqn:E; [apply Nat.eqb_eq in E; subst; contradiction|]. simpl. apply IH. exact Hin.
+Qed.
+
+Lemma in_concat_map2 {A B C} (f : A -> B -> list C) l1 l2 x :
+  In x (concat (map2 f l1 l2)) -> exists a b, In a l1 /\ In b l2 /\ In x (f a b).
+Proof.
+  intros H. apply in_concat in H. destruct H as [l [Hl Hx]].
+  apply in_map2 in Hl. destruct Hl as [a [b [Ha [Hb ->]]]]. eauto.
+Qed.
+
+Theorem nn_seeds_fixed labels index_train index_test n_neighbors argparts s :
+  NoDup index_train -> In s index_train -> ~ In s index_test -> s < length labels -> (0 <= nthz labels s)%Z ->
+  nthz (snd (nn_fit_core labels index_train index_test n_neighbors argparts)) s = nthz labels s.
+Proof.
+  intros Hnd Hin Hnot Hs Hl. unfold nn_fit_core. cbn [snd].
+  set (k := check_n_neighbors n_neighbors (length index_train)).
+  set (A := concat (map2 (fun i ap => map (fun p => (i, nthz labels (nthn index_train p))) (firstn k ap)) index_test argparts)).
+  set (B := map (fun t => (t, nthz labels t)) index_train).
+  set (ncol := n_cols labels). set (L := nthz labels s) in *.
+  set (row := map (fun c => inject_Z (Z.of_nat (count_if (fun p : nat * Z => (fst p =? s) && (snd p =? Z.of_nat c)%Z) (A ++ B))))
+                  (seq 0 ncol)).
+  assert (Hc0 : Z.to_nat L < ncol).
+  { unfold ncol, n_cols. assert (In L labels) by (unfold L, nthz; apply nth_In; exact Hs).
+    pose proof (In_le_maxz _ _ H). lia. }
+  assert (Hcount : forall c, count_if (fun p : nat * Z => (fst p =? s) && (snd p =? Z.of_nat c)%Z) (A ++ B) =
+                             if (L =? Z.of_nat c)%Z then 1 else 0).
+  { intros c. rewrite count_if_app. rewrite count_if_none.
+    - unfold B. rewrite count_if_map. cbn [fst snd].
+      rewrite (count_if_single s (fun t => (nthz labels t =? Z.of_nat c)%Z) index_train Hnd Hin). reflexivity.
+    - intros [i z] Hp. unfold A in Hp. apply in_concat_map2 in Hp. destruct Hp as [i' [ap [Hi' [_ Hp]]]].
+      apply in_map_iff in Hp. destruct Hp as [p [Hp _]]. inversion Hp; subst. simpl.
+      destruct (i =? s) eqn:E; [|reflexivity]. apply Nat.eqb_eq in E. subst. contradiction. }
+  assert (Hrow : forall c, c < ncol -> nthq row c = if (L =? Z.of_nat c)%Z then 1%Q else 0%Q).
+  { intros c Hc. unfold row. rewrite nthq_map_seq0 by exact Hc. rewrite Hcount.
+    destruct (L =? Z.of_nat c)%Z; reflexivity. }
+  assert (Hnn : nonneg_row row).
+  { unfold nonneg_row, row. rewrite Forall_forall. intros x Hx. apply in_map_iff in Hx. destruct Hx as [c [<- _]].
+    apply (qnat_nonneg _). }
+  assert (Hlr : length row = ncol) by (unfold row; rewrite map_length, seq_length; reflexivity).
+  assert (H1 : nthq row (Z.to_nat L) = 1%Q).
+  { rewrite Hrow by exact Hc0. rewrite Z2Nat.id by exact Hl. rewrite Z.eqb_refl. reflexivity. }
+  assert (HS : (1 <= sumq row)%Q).
+  { rewrite <- H1. apply sumq_ge_member.
+    - intros x Hx. unfold nonneg_row in Hnn. rewrite Forall_forall in Hnn. apply Hnn. exact Hx.
+    - unfold nthq. apply nth_In. lia. }
+  assert (HSb : Qeq_bool (sumq row) 0 = false).
+  { destruct (Qeq_bool (sumq row) 0) eqn:E; [|reflexivity]. apply Qeq_bool_iff in E. lra. }
+  unfold nthz. rewrite (nth_map_lt _ _ s [] 0%Z).
+  2:{ rewrite map_length, map_length, seq_length. exact Hs. }
+  rewrite (nth_map_lt normalize_row _ s [] []) by (rewrite map_length, seq_length; exact Hs).
+  rewrite nth_map_seq0 by exact Hs. fold A B ncol row.
+  rewrite (argmax_first_unique (normalize_row row) (Z.to_nat L)).
+  - apply Z2Nat.id. exact Hl.
+  - rewrite normalize_row_length. lia.
+  - rewrite normalize_row_length. intros j Hj Hjc. rewrite !normalize_row_nth by exact Hnn. rewrite HSb, H1.
+    rewrite Hrow by lia. destruct (L =? Z.of_nat j)%Z eqn:E; [apply Z.eqb_eq in E; lia|].
+    apply Qlt_shift_div_l; [lra|]. unfold Qdiv. lra.
+Qed.
+
+Theorem nn_probs_rows labels index_train index_test n_neighbors argparts :
+  Forall prob_row (fst (nn_fit_core labels index_train index_test n_neighbors argparts)).
+Proof.
+  unfold nn_fit_core. cbn [fst]. rewrite Forall_forall. intros x Hx. apply in_map_iff in Hx.
+  destruct Hx as [r [<- Hr]]. apply normalize_row_prob. apply in_map_iff in Hr. destruct Hr as [i [<- _]].
+  unfold nonneg_row. rewrite Forall_forall. intros y Hy. apply in_map_iff in Hy. destruct Hy as [c [<- _]].
+  apply (qnat_nonneg _).
+Qed.
+
+(** * NNLinker: top-k then threshold *)
+
+(** contract of np.argpartition(-sims, k): a permutation of the positions whose first k entries are at least as
+    similar as every later entry *)
+Definition argpartition_ok (sims : list Q) (k : nat) (ap : list nat) : Prop :=
+  Permutation ap (seq 0 (length sims)) /\
+  forall a b, In a (firstn k ap) -> In b (skipn k ap) -> (nthq sims b <= nthq sims a)%Q.
+
+Theorem nnlinker_row_ok (sims : list Q) (k : nat) (thr : Q) (ap : list nat) :
+  argpartition_ok sims k ap ->
+  let row := nnlinker_row sims k thr ap in
+  length row <= k /\ NoDup (map fst row) /\
+  (forall c s, In (c, s) row -> c < length sims /\ s = nthq sims c /\ (thr <= s)%Q) /\
+  (forall c s d, In (c, s) row -> d < length sims -> ~ In d (map fst row) -> (nthq sims d <= s)%Q).
+Proof.
+  intros [Hperm Hpart] row. unfold row, nnlinker_row.
+  set (nn := firstn k ap).
+  set (cols := filter (fun c => memn c nn && Qle_bool thr (nthq sims c)) (seq 0 (length sims))).
+  assert (Hfst : map fst (map (fun c => (c, nthq sims c)) cols) = cols).
+  { rewrite map_map. simpl. apply map_id. }
+  assert (Hcols : forall c, In c cols <-> c < length sims /\ In c nn /\ (thr <= nthq sims c)%Q).
+  { intros c. unfold cols. rewrite filter_In, in_seq, andb_true_iff, memn_In, Qle_bool_iff. intuition lia. }
+  assert (Hndc : NoDup cols) by (apply NoDup_filter, seq_NoDup).
+  split.
+  { rewrite map_length. apply Nat.le_trans with (length nn); [|apply firstn_le_length].
+    apply NoDup_incl_length; [exact Hndc|]. intros c Hc. apply Hcols in Hc. tauto. }
+  split; [rewrite Hfst; exact Hndc|]. split.
+  - intros c s Hin. apply in_map_iff in Hin. destruct Hin as [c' [E Hc']]. inversion E; subst.
+    apply Hcols in Hc'. tauto.
+  - intros c s d Hin Hd Hnot. rewrite Hfst in Hnot.
+    apply in_map_iff in Hin. destruct Hin as [c' [E Hc']]. inversion E; subst. apply Hcols in Hc'.
+    destruct Hc' as [_ [Hcnn Hthr]].
+    destruct (in_dec Nat.eq_dec d nn) as [Hdn|Hdn].
+    + (* in the top k but dropped: below the threshold *)
+      destruct (Qlt_le_dec (nthq sims d) thr) as [Hlt|Hge]; [lra|].
+      exfalso. apply Hnot. apply Hcols. tauto.
+    + (* not in the top k: a discarded candidate *)
+      apply Hpart; [exact Hcnn|].
+      assert (Hdap : In d ap). { apply Permutation_sym in Hperm. apply (Permutation_in _ Hperm). apply in_seq. lia. }
+      rewrite <- (firstn_skipn k ap) in Hdap. apply in_app_or in Hdap. destruct Hdap; [contradiction|assumption].
+Qed.
+
+(** the rows produced by the whole _fit_core are rows of this form *)
+Theorem nnlinker_fit_core_rows emb mask n_neighbors thr aps i row :
+  In (i, row) (nnlinker_fit_core emb mask n_neighbors thr aps) ->
+  let n := length emb in
+  let index_col := if length mask <? n then seq (length mask) (n - length mask) else seq 0 n in
+  exists ap, In ap aps /\
+    row = nnlinker_row (map (fun c => dotq (mrow emb c) (mrow emb i)) index_col)
+                       (check_n_neighbors n_neighbors (length index_col)) thr ap.
+Proof.
+  unfold nnlinker_fit_core. intros H. cbv zeta. apply in_map2 in H.
+  destruct H as [i' [ap [_ [Hap E]]]]. inversion E; subst. exists ap. split; [exact Hap|reflexivity].
+Qed.
+
+(** with a clustering test that looks at the sign of the values, one unlabelled node is enough to leave
+    clustering mode (so that [propagation_seeds_fixed_model] applies); the current test is not of that kind
+    ([propagation_seeds_fixed_refuted]) *)
+Lemma clustering_mode_unlabelled ct seeds :
+  ct <> CT_distinct -> (exists i, i < length seeds /\ (nthz seeds i < 0)%Z) -> clustering_mode ct seeds = false.
+Proof.
+  intros Hct [i [Hi Hneg]].
+  assert (F : forallb (fun l => (0 <=? l)%Z) seeds = false).
+  { destruct (forallb (fun l => (0 <=? l)%Z) seeds) eqn:E; [|reflexivity].
+    rewrite forallb_forall in E. specialize (E (nthz seeds i) ltac:(unfold nthz; apply nth_In; exact Hi)).
+    apply Z.leb_le in E. lia. }
+  destruct ct; simpl; [congruence|exact F|rewrite F; apply andb_false_r].
+Qed.
+
+(** the fixed-point theorem in the form of the property: every NON-SEED node with a labelled neighbour, for the
+    unweighted path of every kernel variant and for the weighted path of a kernel that reads the weight of the
+    edge and clears its scratch list (the repaired source) *)
+Definition prop_nbrs (c : csr) (weighted : bool) (i : nat) : nbrs :=
+  if weighted then nbrs_weighted (c_indptr c) (c_indices c) (c_data c) i
+  else nbrs_unit (c_indptr c) (c_indices c) i.
+
+Theorem propagation_fixed_point_argmax_model pv c seeds order oracle weighted n_iter fuel res :
+  (weighted = true ->
+   wpos (pv_kernel pv) = true /\ clr (pv_kernel pv) = true /\ Forall (fun w => 0 <= w)%Q (c_data c)) ->
+  clustering_mode (pv_ctest pv) seeds = false -> order_ok (pv_order pv) order oracle seeds ->
+  propagation pv c seeds order oracle weighted n_iter fuel = POk res ->
+  pr_fixed res = true -> 0 < pr_sweeps res ->
+  forall i, i < length seeds -> (nthz seeds i < 0)%Z ->
+    has_labelled_neighbour (prop_nbrs c weighted i) (pr_labels res) ->
+    local_max (prop_nbrs c weighted i) (pr_labels res) i.
+Proof.
+  intros Hw Hm Ho H Hf Ht i Hi Hs Hnb.
+  destruct (pr_index_spec _ _ _ _ _ _ _ _ _ H Hm Ho) as [Hnd Hidx].
+  assert (Hin : In i (pr_index res)) by (apply Hidx; split; assumption).
+  unfold prop_nbrs in *. destruct weighted.
+  - destruct (Hw eq_refl) as [H1 [H2 H3]].
+    apply (propagation_fixed_point_weighted_model pv c seeds order oracle n_iter fuel res H1 H2 H3 H Hf Ht Hnd i Hin Hnb).
+  - apply (propagation_fixed_point_unweighted_model pv c seeds order oracle n_iter fuel res H Hf Ht Hnd i Hin Hnb).
 Qed.
